@@ -5,6 +5,7 @@
 #include <ctpg/ctpg.hpp>
 #include <cstdio>
 #include <vector>
+#include <any>
 #include <initializer_list>
 #include <type_traits>
 namespace ht
@@ -64,6 +65,16 @@ struct ListT
     std::vector<int> items;
     ListT(std::initializer_list<int> il) : items(il) {}
     explicit ListT(int count) : items(size_t(count < 0 ? 0 : count), 0) {}
+};
+// a recursive value type (a JSON-like node): a braced list of nodes builds a LIST node, a copy / move is the node itself
+struct SelfList
+{
+    int tag = 0;
+    std::vector<SelfList> items;
+    explicit SelfList(int t) : tag(t) {}
+    SelfList(std::initializer_list<SelfList> il) : tag(-1), items(il) {}
+    SelfList(const SelfList&) = default;
+    SelfList(SelfList&&) = default;
 };
 inline void check(bool ok, const char* cid, const char* what)
 {
